@@ -82,7 +82,9 @@ def run_tlc(module, cfg, *, simulate=None, depth=None, seed=None, workers=None, 
                 fh.write(content)
         if workers is None:
             workers = 1 if simulate else min(16, os.cpu_count() or 1)
-        jvm = ["java", "-XX:+UseParallelGC", "-Xss16m"]
+        # an explicit heap limit: the JVM's default (a quarter of the machine per process) lets a dozen parallel
+        # generation runs outgrow the memory together (the kernel then kills one: "TLC gave no verdict (exit -9)")
+        jvm = ["java", "-XX:+UseParallelGC", "-Xss16m", "-Xmx3g" if (simulate or workers == 1) else "-Xmx12g"]
         if dfs:
             jvm.append("-Dtlc2.tool.queue.IStateQueue=StateDeque")
         cmd = jvm + ["-cp", TLA_CP, "tlc2.TLC", "-workers", str(workers), "-metadir",
